@@ -27,6 +27,9 @@ inductive KnSt where | none | inited | delay | connecting deriving DecidableEq, 
 
 inductive Act where
   | stop | start | disc | send (d : List Byte)
+  | cleanup                 -- cleanup() of the object the callback belongs to
+  | shut                    -- shutdown(SHUT_WR) of this connection
+  | more (d : List Byte)    -- send d if the send-more budget is not used up (send-complete callbacks that send more)
 deriving DecidableEq, Repr
 abbrev Script := List Act
 
@@ -59,6 +62,12 @@ deriving DecidableEq, Repr
 /-- descriptors the loop watches: the listening socket, the server end / the client end of a link -/
 inductive Fd where
   | listen | s (l : Nat) | c (l : Nat)
+  | k (l : Nat)      -- the connector's registration of a connecting socket (removed when the connect completes)
+deriving DecidableEq, Repr
+
+/-- whose callback is running: the server's for token t, client i's, the bare connector's -/
+inductive Ctx where
+  | sv (t : Nat) | cl (i : Nat) | kn
 deriving DecidableEq, Repr
 
 structure Link where
@@ -67,6 +76,8 @@ structure Link where
   sOpen : Bool := true
   tok : Option Nat := none
   held : List Byte := []
+  cShut : Bool := false     -- shutdown(SHUT_WR) was called on the client end / the server end
+  sShut : Bool := false
 deriving Repr
 
 /-- TcpConnector -/
@@ -126,15 +137,23 @@ structure N where
   alive : List (Nat × Bool) := []     -- TcpConnection objects (link, server side?)
   freed : List (Nat × Bool) := []
   busy : Option (Nat × Bool) := none
+  inCb : Option (Ctx × Nat) := none   -- the user callback that is executing (which: 0 connected 1 disconnected 2 receive 3 send-complete)
+  budget : Nat := 0                   -- how many more `more` sends the callbacks may make
+  sockFail : Nat := 0                 -- the next socket() / accept() calls fail with EMFILE, the next connects fail late
+  acceptFail : Nat := 0
+  lateFail : Nat := 0
   uaf : Bool := false
 deriving Repr
 
 /-- `fix` = patches/C06-04 and C06-05 applied -/
 structure Cfg where
-  fix : Bool := true
+  fix : Bool := true      -- C06-04, C06-05
+  fix2 : Bool := true     -- C06-06, C06-07: cleanup() from inside a callback
+  fix3 : Bool := true     -- C06-08: socket() failure is a failed attempt
 
-def N.client (n : N) (i : Nat) : Client := if i = 0 then n.c0 else n.c1
-def N.setClient (n : N) (i : Nat) (c : Client) : N := if i = 0 then { n with c0 := c } else { n with c1 := c }
+def N.client (n : N) (i : Nat) : Client := if i = 0 then n.c0 else if i = 1 then n.c1 else {}
+def N.setClient (n : N) (i : Nat) (c : Client) : N :=
+  if i = 0 then { n with c0 := c } else if i = 1 then { n with c1 := c } else n
 def N.link (n : N) (l : Nat) : Link := n.links.getD l { who := .raw, cOpen := false, sOpen := false }
 def N.setLink (n : N) (l : Nat) (k : Link) : N := { n with links := n.links.set l k }
 /-- bytes written to one socket within one loop pass are read by the peer in one go -/
@@ -216,7 +235,11 @@ def cnFail (cfg : Cfg) (n : N) (w : Who) : N × Bool :=
 
 /-- `enterConnectingState` -/
 def cnEnter (cfg : Cfg) (n : N) (w : Who) : N × Bool :=
-  if n.listening ∧ n.backlog.length ≤ backlogMax then
+  if n.sockFail > 0 then
+    -- socket() fails (EMFILE).  C06-08: a failed attempt like any other; as found: return, nothing changes
+    let n := { n with sockFail := n.sockFail - 1 }
+    if cfg.fix3 then cnFail cfg n w else (n, false)
+  else if n.listening ∧ n.backlog.length ≤ backlogMax then
     let l := n.links.length
     let n := { n with links := n.links ++ [({ who := w } : Link)], backlog := n.backlog ++ [l] }
     let n := n.setCn w { n.cn w with st := .connecting, pend := some l }
@@ -246,7 +269,8 @@ def svSend (n : N) (t : Nat) (_d : List Byte) : N × Bool :=
   | none => (n, false)
   | some l =>
       -- an empty payload still arms the write event (send-complete) but nothing arrives
-      (if (n.link l).cOpen then (if _d = [] then n else n.push (.toC l _d)).push (.sentS l) else n, true)
+      -- after shutdown(SHUT_WR) / towards a closed peer the write fails: dropped with a warning, no write event
+      (if (n.link l).cOpen ∧ ¬ (n.link l).sShut then (if _d = [] then n else n.push (.toC l _d)).push (.sentS l) else n, true)
 
 def svDisconnect (n : N) (t : Nat) : N × Bool :=
   match svLookup n t with
@@ -268,7 +292,7 @@ def clSend (n : N) (i : Nat) (d : List Byte) : N × Bool :=
   let c := n.client i
   match c.st, c.link with
   | .connected, some l =>
-      (if (n.link l).sOpen then (if d = [] then n else n.push (.toS l d)).push (.sentC l) else n, true)
+      (if (n.link l).sOpen ∧ ¬ (n.link l).cShut then (if d = [] then n else n.push (.toS l d)).push (.sentC l) else n, true)
   | _, _ => (n, false)
 
 def clStart (cfg : Cfg) (n : N) (i : Nat) : N × Bool :=
@@ -295,11 +319,61 @@ def clStop (n : N) (i : Nat) : N :=
       (n.setClient i { n.client i with st := .inited, link := none }).ev (.clStop i)
   | _ => n
 
-/-! ### callback scripts -/
+/-- `TcpServer::shutdown(token, SHUT_WR)`: the client reads EOF, the server end stays open for reading -/
+def svShut (n : N) (t : Nat) : N × Bool :=
+  match svLookup n t with
+  | none => (n, false)
+  | some l =>
+      let k := n.link l
+      if k.sOpen ∧ ¬ k.sShut then
+        let n := n.setLink l { k with sShut := true }
+        (if k.cOpen then n.push (.eofC l) else n, true)
+      else (n, true)
 
-inductive Ctx where
-  | sv (t : Nat) | cl (i : Nat) | kn
-deriving DecidableEq, Repr
+/-- `TcpClient::shutdown(SHUT_WR)` -/
+def clShut (n : N) (i : Nat) : N × Bool :=
+  let c := n.client i
+  match c.st, c.link with
+  | .connected, some l =>
+      let k := n.link l
+      if k.cOpen ∧ ¬ k.cShut then
+        let n := n.setLink l { k with cShut := true }
+        (if k.sOpen ∧ k.tok.isSome then n.push (.eofS l) else n, true)
+      else (n, true)
+  | _, _ => (n, false)
+
+/-- `TcpServer::cleanup()` -/
+def svCleanup (cfg : Cfg) (n : N) : N :=
+  if n.sv.st = .none then n
+  else
+    let n := svStop cfg n
+    let n := n.backlog.foldl (fun n l => n.closeSNow l) n
+    { n with backlog := [], listening := false, sv := { n.sv with st := .none } }
+
+/-- `TcpClient::cleanup()`: stop(); sp_connector->cleanup() (which stops the connector once more) -/
+def clCleanup (n : N) (i : Nat) : N :=
+  if (n.client i).st = .none then n
+  else
+    let n := cnStop (clStop n i) (.cl i)
+    let c := n.client i
+    n.setClient i { c with st := .none, reconnect := true, cn := { c.cn with st := .none, fails := 0, tries := 0 } }
+
+/-- `TcpConnector::cleanup()` of the bare connector -/
+def knCleanup (n : N) : N :=
+  if n.kn.st = .none then n
+  else
+    let n := cnStop n .kn
+    { n with kn := { n.kn with st := .none, tries := 0, fails := 0 } }
+
+/-- cleanup() called from a callback whose std::function it destroys (as found: use after free) -/
+def cleanupHits (n : N) (x : Ctx) : Bool :=
+  match n.inCb, x with
+  | some (.sv _, _), .sv _ => true
+  | some (.cl i, w), .cl j => i == j && w ≤ 1
+  | some (.kn, _), .kn => true
+  | _, _ => false
+
+/-! ### callback scripts -/
 
 def runAct (cfg : Cfg) (x : Ctx) (n : N) : Act → N
   | .stop => match x with
@@ -316,8 +390,30 @@ def runAct (cfg : Cfg) (x : Ctx) (n : N) : Act → N
       | .sv t => (svSend n t d).1
       | .cl i => (clSend n i d).1
       | .kn => n
+  | .more d =>
+      if n.budget = 0 then n
+      else
+        let n := { n with budget := n.budget - 1 }
+        match x with
+        | .sv t => (svSend n t d).1
+        | .cl i => (clSend n i d).1
+        | .kn => n
+  | .shut => match x with
+      | .sv t => (svShut n t).1
+      | .cl i => (clShut n i).1
+      | .kn => n
+  | .cleanup =>
+      let n := if !cfg.fix2 && cleanupHits n x then { n with uaf := true } else n
+      match x with
+      | .sv _ => svCleanup cfg n
+      | .cl i => clCleanup n i
+      | .kn => knCleanup n
 
 def runScript (cfg : Cfg) (x : Ctx) (n : N) (s : Script) : N := s.foldl (runAct cfg x) n
+
+/-- a user callback: `which` = 0 connected, 1 disconnected, 2 receive, 3 send-complete -/
+def runCb (cfg : Cfg) (x : Ctx) (which : Nat) (n : N) (s : Script) : N :=
+  { (runScript cfg x { n with inCb := some (x, which) } s) with inCb := none }
 
 /-- `TcpAcceptor::onClientConnected` + `TcpServer::onTcpConnected` up to the user's callback: the
 next token is issued for the accepted link -/
@@ -332,8 +428,16 @@ def svAccept (n : N) (l : Nat) (rest : List Nat) : N :=
   -- what the connected callback sends completes (write event) after that
   let n := if rest ≠ [] then n.push .accept else n
   let n := if k.held ≠ [] then n.push (.toS l k.held) else n
-  let n := if k.cOpen then n else n.push (.eofS l)
+  let n := if k.cOpen ∧ ¬ k.cShut then n else n.push (.eofS l)
   n.ev (.sv t .connected)
+
+/-- run the failure callback of the bare connector when `cnFail` asked for it -/
+def knFailCb (cfg : Cfg) (r : N × Bool) : N :=
+  if r.2 then
+    let n := runCb cfg .kn 0 (r.1.ev .knFailed) r.1.knFail
+    -- as found: `state_ = kInited` after the callback, whatever the callback did
+    if cfg.fix then n else { n with kn := { n.kn with st := .inited } }
+  else r.1
 
 /-! ### the kernel's notifications -/
 
@@ -342,32 +446,44 @@ def handle (cfg : Cfg) (n : N) : Msg → N
       let c := n.cn w
       match c.st, c.pend with
       | .connecting, some l =>
+          if n.lateFail > 0 then
+            -- SO_ERROR reports a failure after EINPROGRESS: exitConnectingState(), onConnectFail()
+            let n := ({ n with lateFail := n.lateFail - 1 }).closeCNow l
+            let r := cnFail cfg n w
+            match w with
+            | .kn => knFailCb cfg r
+            | _ => r.1
+          else
           -- onSocketWritable, success: back to Inited, hand the new TcpConnection to the owner
           let n := n.setCn w { c with st := .inited, pend := none }
           let n := { n with alive := n.alive ++ [(l, false)] }
           match w with
           | .cl i =>
               let n := n.setClient i { n.client i with st := .connected, link := some l }
-              runScript cfg (.cl i) (n.ev (.cl i l .connected)) (n.client i).sConn
+              runCb cfg (.cl i) 0 (n.ev (.cl i l .connected)) (n.client i).sConn
           | _ =>
               -- the bare connector's user drops the connection at once
               let n := n.ev .knConnected
               let n := (n.closeC l).free (l, false) true
-              runScript cfg .kn n n.knConn
+              runCb cfg .kn 1 n n.knConn
       | _, _ => n
   | .accept =>
       match n.sv.st, n.backlog with
-      | .running, l :: rest => runScript cfg (.sv n.sv.issued) (svAccept n l rest) n.sv.sConn
+      | .running, l :: rest =>
+          if n.acceptFail > 0 then
+            -- accept() fails (EMFILE): logged; the listening socket stays readable, the next pass tries again
+            ({ n with acceptFail := n.acceptFail - 1 }).push .accept
+          else runCb cfg (.sv n.sv.issued) 0 (svAccept n l rest) n.sv.sConn
       | _, _ => n
   | .toS l d =>
       let k := n.link l
       match k.tok with
       | none => if k.sOpen then n.setLink l { k with held := k.held ++ d } else n
       | some t =>
-          if svLookup n t = some l then runScript cfg (.sv t) (n.ev (.sv t (.recv d))) n.sv.sRecv else n
+          if svLookup n t = some l then runCb cfg (.sv t) 2 (n.ev (.sv t (.recv d))) n.sv.sRecv else n
   | .sentS l =>
       match (n.link l).tok with
-      | some t => if svLookup n t = some l then runScript cfg (.sv t) (n.ev (.sv t .sendComplete)) n.sv.sSc else n
+      | some t => if svLookup n t = some l then runCb cfg (.sv t) 3 (n.ev (.sv t .sendComplete)) n.sv.sSc else n
       | none => n
   | .eofS l =>
       match (n.link l).tok with
@@ -376,7 +492,7 @@ def handle (cfg : Cfg) (n : N) : Msg → N
             -- TcpConnection::onSocketClosed -> TcpServer::onTcpDisconnected: callback first, then the
             -- token is freed and the connection deleted by a deferred task
             let n := { n with busy := some (l, true) }
-            let n := runScript cfg (.sv t) (n.ev (.sv t .disconnected)) n.sv.sDisc
+            let n := runCb cfg (.sv t) 1 (n.ev (.sv t .disconnected)) n.sv.sDisc
             let n := { n with busy := none }
             if svLookup n t = some l then
               let n := { n with sv := { n.sv with table := n.sv.table.filter (·.1 ≠ t) } }
@@ -388,14 +504,14 @@ def handle (cfg : Cfg) (n : N) : Msg → N
       match (n.link l).who with
       | .cl i =>
           let c := n.client i
-          if c.st = .connected ∧ c.link = some l then runScript cfg (.cl i) (n.ev (.cl i l (.recv d))) c.sRecv else n
+          if c.st = .connected ∧ c.link = some l then runCb cfg (.cl i) 2 (n.ev (.cl i l (.recv d))) c.sRecv else n
       | .raw => if n.rawHold then { n with rawHeld := n.rawHeld ++ d } else { n with rawGot := n.rawGot ++ d }
       | .kn => n
   | .sentC l =>
       match (n.link l).who with
       | .cl i =>
           let c := n.client i
-          if c.st = .connected ∧ c.link = some l then runScript cfg (.cl i) (n.ev (.cl i l .sendComplete)) c.sSc else n
+          if c.st = .connected ∧ c.link = some l then runCb cfg (.cl i) 3 (n.ev (.cl i l .sendComplete)) c.sSc else n
       | _ => n
   | .eofC l =>
       match (n.link l).who with
@@ -406,7 +522,7 @@ def handle (cfg : Cfg) (n : N) : Msg → N
             let n := (n.closeC l).free (l, false) true
             let n := n.setClient i { n.client i with st := .inited, link := none }
             let n := if c.reconnect then (clStart cfg n i).1 else n
-            runScript cfg (.cl i) (n.ev (.cl i l .disconnected)) c.sDisc
+            runCb cfg (.cl i) 1 (n.ev (.cl i l .disconnected)) c.sDisc
           else n
       | .raw => if n.rawHold then { n with rawEofHeld := true } else { n with rawEof := true }
       | .kn => n
@@ -420,7 +536,7 @@ def Msg.fd (n : N) : Msg → Fd
   | .accept => .listen
   | .toS l _ | .sentS l | .eofS l => .s l
   | .toC l _ | .sentC l | .eofC l => .c l
-  | .writable w => match (n.cn w).pend with | some l => .c l | none => .listen
+  | .writable w => match (n.cn w).pend with | some l => .k l | none => .listen
 
 /-- what one loop pass serves, in epoll's order: descriptors reported by the previous pass keep their
 place at the head of the ready list, the others follow in the order they became ready; for one
@@ -430,6 +546,17 @@ def passOrder (n : N) (q : List Msg) : List Fd × List Msg :=
   let present := (q.map (Msg.fd n)).eraseDups
   let fds := n.lastFds.filter (present.contains ·) ++ present.filter (!n.lastFds.contains ·)
   (fds, fds.flatMap fun f => q.filter (fun m => m.fd n == f && !m.isSent) ++ q.filter (fun m => m.fd n == f && m.isSent))
+
+/-- a read takes everything that is in the socket: also what the peer wrote earlier in this same pass -/
+def absorb (m : Msg) (qn : List Msg) : Msg × List Msg :=
+  match m with
+  | .toS l d =>
+      (.toS l (d ++ (qn.filterMap fun x => match x with | .toS l' e => if l' = l then some e else none | _ => none).flatten),
+       qn.filter fun x => match x with | .toS l' _ => l' ≠ l | _ => true)
+  | .toC l d =>
+      (.toC l (d ++ (qn.filterMap fun x => match x with | .toC l' e => if l' = l then some e else none | _ => none).flatten),
+       qn.filter fun x => match x with | .toC l' _ => l' ≠ l | _ => true)
+  | _ => (m, qn)
 
 def drain (cfg : Cfg) : Nat → N → N
   | 0, n => n
@@ -441,7 +568,8 @@ def drain (cfg : Cfg) : Nat → N → N
             | .toS l _, .eofS l' => l = l'
             | .toC l _, .eofC l' => l = l'
             | _, _ => false
-          drain cfg fuel (handle cfg { n with q := rest.filter (!isEofOf ·), qn := rest.filter isEofOf ++ n.qn } m)
+          drain cfg fuel (handle cfg { n with q := rest.filter (!isEofOf ·), qn := rest.filter isEofOf ++ (absorb m n.qn).2 }
+            (absorb m n.qn).1)
       | [] =>
           -- end of a pass: the deferred tasks ran after the callbacks
           if n.qn = [] ∧ n.qlate = [] then n
@@ -455,24 +583,18 @@ def N.quiet (n : N) : Bool := n.q.isEmpty && n.qn.isEmpty && n.qlate.isEmpty
 
 inductive Op where
   | svInit | svStart | svStop | svCleanup
-  | svSend (t : Nat) (d : List Byte) | svDisc (t : Nat) | svValid (t : Nat)
+  | svSend (t : Nat) (d : List Byte) | svDisc (t : Nat) | svValid (t : Nat) | svShut (t : Nat)
   | svScript (which : Nat) (s : Script)
   | clInit (i : Nat) | clStart (i : Nat) | clStop (i : Nat) | clCleanup (i : Nat)
-  | clRec (i : Nat) (b : Bool) | clSend (i : Nat) (d : List Byte)
+  | clRec (i : Nat) (b : Bool) | clSend (i : Nat) (d : List Byte) | clShut (i : Nat)
   | clScript (i : Nat) (which : Nat) (s : Script)
   | knInit (tries : Nat) | knStart | knStop | knCleanup
   | knScript (which : Nat) (s : Script)
   | rawConn | rawSend (d : List Byte) | rawClose | rawHold (b : Bool)
   | adv (ms : Nat)
+  | budget (k : Nat)                     -- how many `more` sends the callbacks may make
+  | fault (kind : Nat) (k : Nat)         -- the next k socket() (0) / accept() (1) calls fail, connects fail late (2); 3 = connect reports EINPROGRESS (no effect)
 deriving Repr
-
-/-- run the failure callback of the bare connector when `cnFail` asked for it -/
-def knFailCb (cfg : Cfg) (r : N × Bool) : N :=
-  if r.2 then
-    let n := runScript cfg .kn (r.1.ev .knFailed) r.1.knFail
-    -- as found: `state_ = kInited` after the callback, whatever the callback did
-    if cfg.fix then n else { n with kn := { n.kn with st := .inited } }
-  else r.1
 
 /-- insertion by (deadline, arming order) -/
 def insertTimer (a : Who × Nat × Nat) : List (Who × Nat × Nat) → List (Who × Nat × Nat)
@@ -503,6 +625,7 @@ def fireTimer (cfg : Cfg) (n : N) (w : Who) : N :=
 def step (cfg : Cfg) (n : N) : Op → N × Bool
   | .svInit =>
       if n.sv.st ≠ .none then (n, false)
+      else if n.sockFail > 0 then ({ n with sockFail := n.sockFail - 1 }, false)     -- the acceptor gets no socket
       else ({ n with sv := { n.sv with st := .inited }, listening := true }, true)
   | .svStart =>
       if n.sv.st ≠ .inited then (n, false)
@@ -510,15 +633,11 @@ def step (cfg : Cfg) (n : N) : Op → N × Bool
         let n := ({ n with sv := { n.sv with st := .running } }).ev .svStart
         (if n.backlog ≠ [] then n.push .accept else n, true)
   | .svStop => (svStop cfg n, true)
-  | .svCleanup =>
-      if n.sv.st = .none then (n, true)
-      else
-        let n := svStop cfg n
-        let n := n.backlog.foldl (fun n l => n.closeSNow l) n
-        ({ n with backlog := [], listening := false, sv := { n.sv with st := .none } }, true)
+  | .svCleanup => (svCleanup cfg n, true)
   | .svSend t d => svSend n t d
   | .svDisc t => svDisconnect n t
   | .svValid t => (n, (svLookup n t).isSome)
+  | .svShut t => svShut n t
   | .svScript w s =>
       ({ n with sv := match w with
           | 0 => { n.sv with sConn := s } | 1 => { n.sv with sDisc := s }
@@ -530,15 +649,10 @@ def step (cfg : Cfg) (n : N) : Op → N × Bool
       else (n.setClient i { c with st := .inited, cn := { c.cn with st := if c.cn.st = .none then .inited else c.cn.st } }, true)
   | .clStart i => clStart cfg n i
   | .clStop i => (clStop n i, true)
-  | .clCleanup i =>
-      if (n.client i).st = .none then (n, true)
-      else
-        -- stop(); sp_connector->cleanup() (which stops the connector once more)
-        let n := cnStop (clStop n i) (.cl i)
-        let c := n.client i
-        (n.setClient i { c with st := .none, reconnect := true, cn := { c.cn with st := .none, fails := 0, tries := 0 } }, true)
+  | .clCleanup i => (clCleanup n i, true)
   | .clRec i b => (n.setClient i { n.client i with reconnect := b }, true)
   | .clSend i d => clSend n i d
+  | .clShut i => clShut n i
   | .clScript i w s =>
       let c := n.client i
       (n.setClient i (match w with
@@ -553,11 +667,7 @@ def step (cfg : Cfg) (n : N) : Op → N × Bool
         let n := ({ n with kn := { n.kn with fails := 0 } }).ev .knStart
         (knFailCb cfg (cnEnter cfg n .kn), true)
   | .knStop => ((cnStop n .kn).ev .knStop, true)
-  | .knCleanup =>
-      if n.kn.st = .none then (n, true)
-      else
-        let n := cnStop n .kn
-        ({ n with kn := { n.kn with st := .none, tries := 0, fails := 0 } }, true)
+  | .knCleanup => (knCleanup n, true)
   | .knScript w s => (if w = 0 then { n with knFail := s } else { n with knConn := s }, true)
   | .rawConn =>
       if n.listening ∧ n.backlog.length ≤ backlogMax then
@@ -580,6 +690,13 @@ def step (cfg : Cfg) (n : N) : Op → N × Bool
   | .adv ms =>
       let n := { n with now := n.now + ms }
       ((dueTimers n).foldl (fun n t => fireTimer cfg n t.1) n, true)
+  | .budget k => ({ n with budget := k }, true)
+  | .fault kind k =>
+      (match kind with
+        | 0 => { n with sockFail := k }
+        | 1 => { n with acceptFail := k }
+        | 2 => { n with lateFail := k }
+        | _ => n, true)
 
 /-- operations the harness accepts in this state -/
 def Op.okIn (n : N) : Op → Bool
